@@ -890,3 +890,85 @@ def plan_C20(ctx):
 
 
 PLANS.update({"C03": plan_C03, "C11": plan_C11, "C20": plan_C20})
+
+
+# ====================================================================== C17: time maps
+def c17_lattices(r, quick):
+    import math, struct
+
+    def ulps(x, k):
+        for _ in range(abs(k)):
+            x = math.nextafter(x, math.inf if k > 0 else -math.inf)
+        return x
+    taus = set()
+    # every double within 64 ulps of 0 (subnormals) and of the branch-related values, both signs
+    for k in range(-64, 65):
+        taus.add(ulps(0.0, k))
+    for base in (1.0, -1.0, 2.0, -2.0, 0.5, -0.5, math.sqrt(2) - 1, 1 - math.sqrt(2)):
+        for k in range(-8, 9):
+            taus.add(ulps(base, k))
+    for e in range(0, 1075, 8):
+        taus.add(2.0 ** -e)
+        taus.add(-(2.0 ** -e))
+    # adjacent-double pairs at many magnitudes
+    nm = 60 if quick else 200
+    for i in range(nm):
+        m = 10.0 ** r.uniform(-12, 6) * r.choice([-1, 1])
+        for k in range(0, 6):
+            taus.add(ulps(m, k))
+    for _ in range(4000 if quick else 100000):
+        taus.add(r.choice([-1, 1]) * 10.0 ** r.uniform(-9, 6))
+        taus.add(r.uniform(-3, 3))
+    taus = sorted(t for t in taus if abs(t) <= 1e6)
+    Ts = set()
+    for k in range(-32, 33):
+        Ts.add(ulps(1.0, k))
+    for i in range(nm):
+        m = 10.0 ** r.uniform(-6, 6)
+        for k in range(0, 4):
+            Ts.add(ulps(m, k))
+    for _ in range(3000 if quick else 100000):
+        Ts.add(10.0 ** r.uniform(-6, 6))
+        Ts.add(r.uniform(0.5, 2.0))
+    Ts = sorted(t for t in Ts if 1e-6 <= t <= 1e6)
+    return taus, Ts
+
+
+def plan_C17(ctx):
+    selftest_rat(ctx)
+    run_mc(ctx, "MCTimeMap", "MCTimeMap.cfg", workers=8, timeout=600)
+    run_mc_text(ctx, "MCTimeMap", open(os.path.join(vbuild.VERIF, "spec", "MCTimeMap.cfg")).read().replace('Broken = "none"', 'Broken = "negderiv"'),
+                "broken twin timemap:negderiv", workers=2, expect_violation=True)
+    exe = vbuild.timemap_replay()
+    r = gen.Rng(ctx.seed * 1000003 + 17)
+    taus, Ts = c17_lattices(r, ctx.quick())
+    chunk = 250
+    batches = []
+    for mp in ("quad", "identity"):
+        cmds = []
+        tt = taus if mp == "quad" else taus[::7]
+        for i in range(0, len(tt), chunk):
+            seg = tt[max(0, i - 1):i + chunk]        # overlap by one so that adjacency is judged across chunks too
+            cmds.append({"op": "totime", "map": mp, "taus": gen.hv(seg)})
+            cmds.append({"op": "tau_roundtrip", "map": mp, "taus": gen.hv(seg)})
+            cmds.append({"op": "backward", "map": mp, "taus": gen.hv(seg), "gs": gen.hv([r.choice([1.0, -2.5, r.uniform(-100, 100), 0.0]) for _ in seg])})
+        TT = Ts if mp == "quad" else Ts[::7]
+        for i in range(0, len(TT), chunk):
+            cmds.append({"op": "totau", "map": mp, "Ts": gen.hv(TT[i:i + chunk])})
+        # split into batches of ~12 events
+        for i in range(0, len(cmds), 12):
+            batches.append(cmds[i:i + 12])
+    ctx.family, ctx.tracespec, ctx.env_flags = "timemap", "TraceTimeMap", {}
+    ctx.samples = [{"taus_sample": gen.hv(taus[:3] + taus[len(taus) // 2:len(taus) // 2 + 3]), "n_taus": len(taus), "n_T": len(Ts)}]
+    replay_and_validate(ctx, exe, batches, "TraceTimeMap", {})
+    ctx.traces = len(batches)
+    return finish(ctx, "model_checking",
+                  "optimisation variables: every double within 64 ulps of 0 and within 8 ulps of +-1/2, +-1, +-2, +-(sqrt2-1); +-2^-k down to the "
+                  "subnormals; adjacent-double runs at random magnitudes; log-uniform and uniform random; |tau| <= 1e6; durations likewise in "
+                  "[1e-6, 1e6] incl. 32 ulps around 1; sorted, so monotonicity is judged on adjacent doubles; every value judged against the exact "
+                  "rational map (relative 1e-13; inverse through the exact forward map, relative 1e-9)",
+                  TRUSTED, ["domain of DESIGN s4 (|tau| <= 1e6, T in [1e-6, 1e6])"], props_judged={"C17"},
+                  extra_cov={"distinct_nontrivial": len(taus) + len(Ts)})
+
+
+PLANS.update({"C17": plan_C17})
